@@ -8,6 +8,7 @@ A3 = ["absent", "empty", "Pdd"]
 A4 = ["absent", "empty", "P", "Pdd"]
 A6 = ["absent", "empty", "P", "dd", "Pdd", "T"]
 A7 = A6 + ["Tdd"]
+A9 = A7 + ["ddP", "ddT"]            # `..` written first
 
 TY_T = {"k": "param", "i": 1}
 TY_OPT = {"k": "app", "c": "Option", "args": [{"k": "param", "i": 1}]}
@@ -92,7 +93,7 @@ def c04_items(tier, rnd):
             Ps.append(nine_item(t, ch, helper))
         # the full six-letter alphabet (incl. bound(..) and bound(Ty)) on a seeded sample of the 6^9 space
         for _ in range(3000 if tier == "quick" else 40000):
-            Ps.append(nine_item(t, [rnd.choice(A7) for _ in range(9)], helper))
+            Ps.append(nine_item(t, [rnd.choice(A9) for _ in range(9)], helper))
     # fields whose usage state suppresses the DEFAULT bound still contribute their explicit levels:
     # #[default(expr)] with bound(...), on structs and on the default variant of enums
     for ch in itertools.product(A4, repeat=4):
@@ -128,6 +129,26 @@ def c04_items(tier, rnd):
             Ps.append(P)
     for t in cf.TRAITS:
         Ps += cmp_level_items(t, tier, rnd)
+    # variant levels on a variant WITHOUT fields (unit, `()`, `{}`): they count all the same; and `..` written first
+    primary = {"Debug": "debug", "Default": "default", "PartialEq": "partial_eq", "Eq": "eq", "PartialOrd": "partial_ord", "Ord": "ord", "Hash": "hash"}
+    for t in ("Clone", "Copy", "PartialEq", "Eq", "PartialOrd", "Ord", "Hash", "Debug", "Default"):
+        h = primary.get(t)
+        for shape in ("unit", "tuple", "named"):
+            for ch in itertools.product(["absent", "empty", "P", "ddP"], repeat=4):
+                for carrier_default in ((False, True) if t == "Default" else (False,)):
+                    # (a `#[default(..)]` helper on a variant marks it as the default one: only the marked carrier may carry it)
+                    hh = h if (t != "Default" or carrier_default) else None
+                    v0 = {"shape": shape, "dmark": carrier_default, "vb": bf.LS({hh: ch[0]} if hh else None, ch[1], ch[2]), "fields": []}
+                    v1 = {"shape": "tuple", "dmark": t == "Default" and not carrier_default, "fields": [bf.fld(TY_T)]}
+                    P = bf.mkP("enum", t, [v0, v1], decl=1, tb=bf.LS(None, ch[3]))
+                    if t in cf.TRAITS:
+                        P["D"] = [t]
+                    Ps.append(P)
+                    # the carrier in second position as well
+                    P2 = bf.mkP("enum", t, [dict(v1), dict(v0)], decl=1, tb=bf.LS(None, ch[3]))
+                    if t in cf.TRAITS:
+                        P2["D"] = [t]
+                    Ps.append(P2)
     return Ps
 
 
@@ -462,6 +483,32 @@ C20_SPECIAL = [
     ("key_needs_field_bound", "Ord, PartialOrd, Eq, PartialEq, Hash", "pub struct X<T> { #[ord(key = $.weight(), bound(T: New))] pub a: T, pub b: u8 }\npub trait New { fn new() -> Self; fn weight(&self) -> u8; }"),
     ("key_needs_type_bound", "PartialOrd, PartialEq", "#[partial_ord(bound(T: New))] pub enum X<T> { A(#[partial_ord(key = $.weight())] T), B }\npub trait New { fn new() -> Self; fn weight(&self) -> u8; }"),
     ("by_needs_field_bound", "PartialEq, Eq", "pub struct X<T> { pub b: u8, #[eq(by = |a: &T, b: &T| a.weight() == b.weight(), bound(T: New))] pub a: T }\npub trait New { fn new() -> Self; fn weight(&self) -> u8; }"),
+    # `by` helpers on a dynamically sized last field, one per helper attribute and trait that can inherit it
+    ("by_unsized_partial_eq", "PartialEq", "pub struct X { pub a: u8, #[partial_eq(by = |a: &[f64], b: &[f64]| a == b)] pub tail: [f64] }"),
+    ("by_unsized_eq", "Eq, PartialEq", "pub struct X { pub a: u8, #[eq(by = |a: &[u8], b: &[u8]| a == b)] pub tail: [u8] }"),
+    ("by_unsized_partial_ord", "PartialOrd, PartialEq", "pub struct X { pub a: u8, #[partial_ord(by = |a: &[f64], b: &[f64]| a.partial_cmp(b))] pub tail: [f64] }"),
+    ("by_unsized_partial_ord_generic", "PartialOrd, PartialEq", "pub struct X<T: ?::core::marker::Sized + ::core::cmp::PartialOrd> { pub a: u8, #[partial_ord(by = |a: &T, b: &T| a.partial_cmp(b))] pub tail: T }"),
+    ("by_unsized_ord", "Ord, PartialOrd, Eq, PartialEq", "pub struct X { pub a: u8, #[ord(by = |a: &str, b: &str| a.cmp(b))] pub tail: str }"),
+    ("by_unsized_hash", "Hash", "pub struct X(pub u8, #[hash(by = |a: &[u8], s| ::core::hash::Hash::hash(a, s))] pub [u8]);"),
+    ("key_unsized_tail", "Ord, PartialOrd, Eq, PartialEq, Hash", "pub struct X { pub a: u8, #[ord(key = $.len())] pub tail: str }"),
+    ("stop_first_variant_clone", "Clone", "pub enum X<T, U> { #[derive_ex(Clone(bound()))] Marker(::core::marker::PhantomData<T>), Value(U), Pair(u8, U) }"),
+    ("stop_first_field_clone", "Clone", "pub struct X<T, U>(#[derive_ex(Clone(bound()))] pub ::core::marker::PhantomData<T>, pub U, pub ::core::option::Option<U>);"),
+    ("stop_first_variant_debug", "Debug", "pub enum X<T, U> { #[derive_ex(Debug(bound()))] Marker(::core::marker::PhantomData<T>), Value(U), Pair(u8, U) }"),
+    ("stop_first_field_debug", "Debug", "pub struct X<T, U>(#[derive_ex(Debug(bound()))] pub ::core::marker::PhantomData<T>, pub U, pub ::core::option::Option<U>);"),
+    ("stop_first_variant_default", "Default", "pub enum X<T, U> { #[default] #[derive_ex(Default(bound()))] Marker(::core::marker::PhantomData<T>), Value(U), Pair(u8, U) }"),
+    ("stop_first_field_default", "Default", "pub struct X<T, U>(#[derive_ex(Default(bound()))] pub ::core::marker::PhantomData<T>, pub U, pub ::core::option::Option<U>);"),
+    ("stop_first_variant_peq", "PartialEq", "pub enum X<T, U> { #[derive_ex(PartialEq(bound()))] Marker(::core::marker::PhantomData<T>), Value(U), Pair(u8, U) }"),
+    ("stop_first_field_peq", "PartialEq", "pub struct X<T, U>(#[derive_ex(PartialEq(bound()))] pub ::core::marker::PhantomData<T>, pub U, pub ::core::option::Option<U>);"),
+    ("stop_first_variant_eq", "Eq, PartialEq", "pub enum X<T, U> { #[derive_ex(Eq(bound()), PartialEq(bound()))] Marker(::core::marker::PhantomData<T>), Value(U), Pair(u8, U) }"),
+    ("stop_first_field_eq", "Eq, PartialEq", "pub struct X<T, U>(#[derive_ex(Eq(bound()), PartialEq(bound()))] pub ::core::marker::PhantomData<T>, pub U, pub ::core::option::Option<U>);"),
+    ("stop_first_variant_pord", "PartialOrd, PartialEq", "pub enum X<T, U> { #[derive_ex(PartialOrd(bound()), PartialEq(bound()))] Marker(::core::marker::PhantomData<T>), Value(U), Pair(u8, U) }"),
+    ("stop_first_field_pord", "PartialOrd, PartialEq", "pub struct X<T, U>(#[derive_ex(PartialOrd(bound()), PartialEq(bound()))] pub ::core::marker::PhantomData<T>, pub U, pub ::core::option::Option<U>);"),
+    ("stop_first_variant_ord", "Ord, PartialOrd, Eq, PartialEq", "pub enum X<T, U> { #[derive_ex(Ord(bound()), PartialOrd(bound()), Eq(bound()), PartialEq(bound()))] Marker(::core::marker::PhantomData<T>), Value(U), Pair(u8, U) }"),
+    ("stop_first_field_ord", "Ord, PartialOrd, Eq, PartialEq", "pub struct X<T, U>(#[derive_ex(Ord(bound()), PartialOrd(bound()), Eq(bound()), PartialEq(bound()))] pub ::core::marker::PhantomData<T>, pub U, pub ::core::option::Option<U>);"),
+    ("stop_first_variant_hash", "Hash", "pub enum X<T, U> { #[derive_ex(Hash(bound()))] Marker(::core::marker::PhantomData<T>), Value(U), Pair(u8, U) }"),
+    ("stop_first_field_hash", "Hash", "pub struct X<T, U>(#[derive_ex(Hash(bound()))] pub ::core::marker::PhantomData<T>, pub U, pub ::core::option::Option<U>);"),
+    ("stop_first_variant_copy", "Copy, Clone", "pub enum X<T, U> { #[derive_ex(Copy(bound()), Clone(bound()))] Marker(::core::marker::PhantomData<T>), Value(U), Pair(u8, U) }"),
+    ("stop_first_field_copy", "Copy, Clone", "pub struct X<T, U>(#[derive_ex(Copy(bound()), Clone(bound()))] pub ::core::marker::PhantomData<T>, pub U, pub ::core::option::Option<U>);"),
     ("raw_idents", "Clone, Debug, Default, PartialEq, Eq, PartialOrd, Ord, Hash", "pub struct r#X<r#T> { pub r#type: r#T, pub r#fn: u8 }"),
     ("raw_enum", "Clone, Debug, PartialEq, Eq, PartialOrd, Ord, Hash", "pub enum X { r#match { r#loop: u8 }, r#type(u8), r#Self_ }"),
     ("local_names_fields", "Clone, Debug, Default, PartialEq, Eq, PartialOrd, Ord, Hash, Add, AddAssign, Neg", "pub struct X { pub this: i8, pub other: i8, pub state: i8, pub f: i8, pub rhs: i8, pub source: i8, pub lhs: i8, pub o: i8 }"),
